@@ -328,7 +328,7 @@ def run(ck):
         ck.count('busy.leaves')
 
     # (b) hub with several peers, simultaneous initiations
-    nh = 150 if not ck.thorough() else 6000
+    nh = 150 if not ck.thorough() else 12000
     rng = ck.rng('hub', ck.shard[0])
     for w in range(nh):
         if not ck.mine(w):
